@@ -35,6 +35,73 @@ fn rel(quoted: U, limit: U) -> &'static str {
     }
 }
 
+/// A refused call whose limit was satisfied: is the limit the only reason? (the same call with limit 0 is tried in a
+/// fork of the unchanged state by the runner - see `refusal_probe`)
+pub fn refusal_probe(r: &mut crate::run::Runner, step: &Step) {
+    let (out, _, preq) = match &r.last {
+        Some(x) => x.clone(),
+        None => return,
+    };
+    if out.ok {
+        return;
+    }
+    let actor = r.w.resolve(&step.actor);
+    let (quoted, limit, receiving, level, unlimited): (Option<U>, U, bool, String, Op) = match &step.op {
+        Op::SwapInput { vamm, dir, quote, limit, can_go_over } if r.w.cfg.kind == WorldKind::VammDirect => (pq_u(&preq, "quote"), *limit, *dir == Dir::Add, format!("vamm,input,{}", dir.js()), Op::SwapInput { vamm: *vamm, dir: *dir, quote: *quote, limit: 0, can_go_over: *can_go_over }),
+        Op::SwapOutput { vamm, dir, base, limit } if r.w.cfg.kind == WorldKind::VammDirect => (pq_u(&preq, "quote"), *limit, *dir == Dir::Add, format!("vamm,output,{}", dir.js()), Op::SwapOutput { vamm: *vamm, dir: *dir, base: *base, limit: 0 }),
+        Op::Open { vamm, side, margin, leverage, limit } if r.w.cfg.kind == WorldKind::Standard => {
+            // open / increase / reduce only (the statement's scope); a reversal's limit handling is not asserted
+            let n = mul_div(*margin, *leverage, r.w.d).unwrap_or(0);
+            let reversal = match r.obs.position(*vamm, &actor) {
+                Some(p) if p.dir != side.dir() => p.size == 0 || pq_u(&preq, "out_whole").map(|c| c <= n).unwrap_or(true),
+                _ => false,
+            };
+            if reversal {
+                return;
+            }
+            (pq_u(&preq, "quote_in"), *limit, *side == Side::Buy, format!("engine,open,{}", side.js()), Op::Open { vamm: *vamm, side: *side, margin: *margin, leverage: *leverage, limit: 0 })
+        }
+        Op::Close { vamm, limit } if r.w.cfg.kind == WorldKind::Standard => {
+            let pos = match r.obs.position(*vamm, &actor) {
+                Some(p) if p.size != 0 => p.clone(),
+                _ => return,
+            };
+            (pq_u(&preq, "out_whole"), *limit, pos.size > 0, format!("engine,close,{}", if pos.size > 0 { "long" } else { "short" }), Op::Close { vamm: *vamm, limit: 0 })
+        }
+        _ => return,
+    };
+    let qv = match quoted {
+        Some(x) => x,
+        None => return,
+    };
+    if limit == 0 || wrong_side(receiving, qv, limit) {
+        return;
+    }
+    // the limit is satisfied by the quote, yet the call was refused
+    let a = step.actor.clone();
+    let f = step.funds;
+    let snap_before = r.w.dump();
+    let (alt, whole) = r.fork(|w| {
+        let o = w.exec(&a, &unlimited, f, None);
+        // for an engine close: did the unlimited call close the whole position?
+        (o, true)
+    });
+    let _ = whole;
+    let _ = snap_before;
+    r.ev.eval(true, &("refusal", level.clone(), rel(qv, limit), alt.ok), || json!({"level": level, "quoted": qv.to_string(), "limit": limit.to_string(), "refused_with_limit": true, "accepted_without_limit": alt.ok}));
+    if alt.ok {
+        // an engine close that turns partial without the limit is outside the statement ("whole-position ClosePosition")
+        if let Op::Close { vamm, .. } = &step.op {
+            let pos_size = r.obs.position(*vamm, &actor).map(|p| p.size).unwrap_or(0);
+            let moved = alt.events.iter().filter(|e| e.ty == "wasm").flat_map(|e| e.attributes.iter()).find(|a| a.key == "base_asset_amount").and_then(|a| a.value.parse::<u128>().ok()).unwrap_or(0);
+            if moved != pos_size.unsigned_abs() {
+                return;
+            }
+        }
+        r.ev.violation("limit_refused_although_satisfied", &format!("{},{}", level, rel(qv, limit)), json!({"quoted": qv.to_string(), "limit": limit.to_string(), "error_with_limit": crate::run::tail(&out.err, 120)}));
+    }
+}
+
 pub fn step(ctx: &Ctx, w: &World, ev: &mut Ev) {
     match &ctx.step.op {
         Op::SwapInput { vamm, dir, quote, limit, .. } | Op::SwapOutput { vamm, dir, base: quote, limit } if w.cfg.kind == WorldKind::VammDirect => {
